@@ -184,11 +184,7 @@ def run(chk):
     # ---------------- R07.2 legacy compliance functions
     ml = repo.by_path('TidalPy/rheology/complex_compliance/compliance_models.py')
 
-    def call_hook(itp, f, args, kwargs, e, fr):
-        if isinstance(f, FuncRef) and f.node.name == 'find_factorial':
-            return X.fn('gamma', X.lift(args[0]) + 1)
-        return NotImplemented
-    it2 = Interp(repo, hooks={'call': call_hook})
+    it2 = Interp(repo)          # find_factorial (Gamma(x + 1) through scipy.special) is interpreted like everything else
     from .common import ArrayTwin
     twin = ArrayTwin(chk, 'R07.7', it2, d)
     comp = 1 / mu
